@@ -1487,6 +1487,7 @@ func (t *Terminal) UpdateProgress(progress float32) {
 // UpdateList updates Merger to display the list
 func (t *Terminal) UpdateList(merger *Merger) {
 	t.mutex.Lock()
+	verifTrace("term.update_list", merger.Length(), 0, verifPtr(merger))
 	prevIndex := minItem.Index()
 	newRevision := merger.Revision()
 	if t.revision.compatible(newRevision) && t.track != trackDisabled {
@@ -4462,8 +4463,11 @@ func (t *Terminal) Loop() error {
 					reader := bufio.NewReader(out)
 					eofChan := make(chan bool)
 					finishChan := make(chan bool, 1)
+					verifPoint("preview.before_start", 0)
 					err := cmd.Start()
 					if err == nil {
+						verifTrace("preview.start", cmd.Process.Pid, int(version), "")
+						verifPoint("preview.started", 0)
 						reapChan := make(chan bool)
 						lineChan := make(chan eachLine)
 						// Goroutine 1 reads process output
@@ -4565,6 +4569,7 @@ func (t *Terminal) Loop() error {
 						finishChan <- true // Tell Goroutine 3 to stop
 						<-reapChan         // Goroutine 2 and 3 finished
 						<-reapChan
+						verifTrace("preview.exit", cmd.Process.Pid, int(version), "")
 						removeFiles(tempFiles)
 					} else {
 						// Failed to start the command. Report the error immediately.
@@ -4840,6 +4845,7 @@ func (t *Terminal) Loop() error {
 				}
 			}
 		case serverActions := <-t.serverInputChan:
+			verifTrace("term.server_actions", len(serverActions), 0, "")
 			event = tui.Invalid.AsEvent()
 			if t.listenAddr == nil || t.listenAddr.IsLocal() || t.listenUnsafe {
 				actions = serverActions
@@ -6149,6 +6155,8 @@ func (t *Terminal) Loop() error {
 		for _, event := range events {
 			t.reqBox.Set(event, nil)
 		}
+		verifTrace("term.loop_end", verifFlags(reload, changed), len(events), "")
+		verifPoint("term.loop_end", 0)
 	}
 	return nil
 }
